@@ -20,22 +20,27 @@ import (
 // stub transport, driven by a scripted peer (the "read pump" task), a user
 // task and the connection's own timer goroutines.
 type ship1Opts struct {
-	devRate     float64 // probability of a deviant frame per peer step
-	dataRate    float64 // probability of an (early/late) data frame per peer step
-	clockRate   float64 // probability of a pure clock advance per peer step
-	maxEvents   int
-	userPlans   []string // drawn from: none approve cancel close-safe close-unsafe revoke
-	helloModes  []string // peer hello behaviour: ready pending aborted
-	trustModes  []string // paired auto none
-	storedIDs   []string
-	presented   []string // what the peer presents as its SHIP ID (frame text via fAccess or raw)
-	connErrRate float64
-	peerClose   float64
-	writeFailAt int
-	failOnce    bool
-	noWaiting   float64 // probability that waiting for trust is not allowed
-	roles       []string
-	lateFrames  int // frames still delivered after the transport was closed
+	devRate       float64 // probability of a deviant frame per peer step
+	dataRate      float64 // probability of an (early/late) data frame per peer step
+	clockRate     float64 // probability of a pure clock advance per peer step
+	maxEvents     int
+	userPlans     []string // drawn from: none approve cancel close-safe close-unsafe revoke
+	helloModes    []string // peer hello behaviour: ready pending aborted
+	trustModes    []string // paired auto none
+	storedIDs     []string
+	presented     []string // what the peer presents as its SHIP ID (frame text via fAccess or raw)
+	connErrRate   float64
+	peerClose     float64
+	writeFailAt   int
+	failOnce      bool
+	noWaiting     float64 // probability that waiting for trust is not allowed
+	roles         []string
+	lateFrames    int      // frames still delivered after the transport was closed
+	noPeerHelloEv bool     // the peer never sends unsolicited hello events (abort, prolongation)
+	asyncConnErr  float64  // probability of a transport error reported from a second goroutine (the ws write pump)
+	amOrders      []string // order variants of the access-methods exchange (C09)
+	noAmDeviants  bool
+	timelyTail    bool // after the event budget the peer keeps answering at once (no input-free quiet period)
 }
 
 type ship1 struct {
@@ -62,6 +67,9 @@ type ship1 struct {
 	userTrig   chan struct{}
 	userDone   chan struct{}
 	nextData   int
+	amOrder    string
+	asyncErrAt int
+	asyncTrig  chan struct{}
 	delivered  []string
 	devClasses map[string]int
 }
@@ -104,14 +112,31 @@ func (s *ship1) onTx(kind string, b []byte) {
 		if peerClient {
 			s.enqueue(fProtSelect)
 		}
+		if s.amOrder == "early-reply" {
+			s.enqueue(s.presented)
+		}
 		s.enqueue(fPinNone)
 	case "pin":
 		if !s.sentAmReq {
 			s.sentAmReq = true
-			s.enqueue(fAccessReq)
+			switch s.amOrder {
+			case "reply-first":
+				s.enqueue(s.presented, fAccessReq)
+			case "no-request":
+			default:
+				s.enqueue(fAccessReq)
+			}
 		}
 	case "amreq":
-		s.enqueue(s.presented)
+		switch s.amOrder {
+		case "reply-first":
+		case "reply-twice":
+			s.enqueue(s.presented, s.presented)
+		case "combined":
+			s.enqueue(fAccessReq + s.presented[1:])
+		default:
+			s.enqueue(s.presented)
+		}
 	case "close:announce":
 		s.enqueue(fCloseConfirm)
 	}
@@ -150,6 +175,24 @@ func newShip1(x *Ctx, o ship1Opts) *ship1 {
 	s.userPlan = Pick(x, "user-plan", o.userPlans)
 	s.userAt = x.Choose("user-at", o.maxEvents+1)
 	noWaiting := x.Chance("no-waiting", o.noWaiting)
+	s.amOrder = "normal"
+	if len(o.amOrders) > 0 {
+		s.amOrder = PickB(x, "am-order", 0.4, o.amOrders)
+	}
+	s.asyncTrig = make(chan struct{})
+	if x.Chance("async-connerr", o.asyncConnErr) {
+		s.asyncErrAt = 1 + x.Choose("async-connerr-at", o.maxEvents)
+		x.Go("U:wpump", func() {
+			simrt.Recv("asyncTrig", s.asyncTrig)
+			x.Ev("connerr-injected", "async", "", int(s.state()))
+			s.tw.mu.Lock()
+			s.tw.closed = true
+			s.tw.closeErr = errors.New("transport lost")
+			s.tw.mu.Unlock()
+			s.conn.ReportConnectionError(errors.New("transport lost (write pump)"))
+			x.Ev("connerr-ret", "async", "", 0)
+		})
+	}
 	s.nextData = 1
 	s.prov = &stubProvider{x: x, name: "U", paired: s.trustMode == "paired", autoAccept: s.trustMode == "auto", allowWaiting: !noWaiting}
 	s.tw = &stubWriter{x: x, name: "U", failAt: o.writeFailAt, failOnce: o.failOnce, onTx: s.onTx}
@@ -174,7 +217,26 @@ func newShip1(x *Ctx, o ship1Opts) *ship1 {
 		s.peerLoop()
 		// quiet period: every timer that is still armed gets its chance
 		x.Ev("quiet-start", "", "", int(s.state()))
-		simrt.Sleep(6 * time.Minute)
+		if s.o.timelyTail {
+			for i := 0; i < 360; i++ {
+				for !s.tw.isClosed() {
+					s.mu.Lock()
+					var f string
+					if len(s.queue) > 0 {
+						f = s.queue[0]
+						s.queue = s.queue[1:]
+					}
+					s.mu.Unlock()
+					if f == "" {
+						break
+					}
+					s.deliver(f, "coop:"+classify([]byte(f)))
+				}
+				simrt.Sleep(time.Second)
+			}
+		} else {
+			simrt.Sleep(6 * time.Minute)
+		}
 		x.Ev("quiet-end", "", "", int(s.state()))
 		if s.userPlan != "none" {
 			select {
@@ -231,6 +293,9 @@ func (s *ship1) peerLoop() {
 				close(s.userTrig)
 			}
 		}
+		if ev == s.asyncErrAt {
+			close(s.asyncTrig)
+		}
 		if s.tw.isClosed() || errReported {
 			// the transport is gone: the pump may still hand over a few frames it
 			// had already read (late arrivals), then it stops
@@ -241,6 +306,9 @@ func (s *ship1) peerLoop() {
 		}
 		r := x.S.ChooseBiased("peer-act", 1000, 0.5)
 		p := float64(r) / 1000
+		if s.o.noPeerHelloEv && p >= s.o.devRate+s.o.dataRate+s.o.clockRate+s.o.connErrRate+s.o.peerClose {
+			r = 0
+		}
 		switch {
 		case r == 0 || p >= s.o.devRate+s.o.dataRate+s.o.clockRate+s.o.connErrRate+s.o.peerClose+0.08:
 			// cooperative step
@@ -256,7 +324,20 @@ func (s *ship1) peerLoop() {
 			} else {
 				d := sleepChoices[x.Choose("sleep", len(sleepChoices))]
 				x.Ev("sleep", d.String(), "", 0)
-				simrt.Sleep(d)
+				if s.o.timelyTail {
+					// a timely peer: wake up as soon as there is something to answer
+					for left := d; left > 0; left -= 100 * time.Millisecond {
+						s.mu.Lock()
+						n := len(s.queue)
+						s.mu.Unlock()
+						if n > 0 {
+							break
+						}
+						simrt.Sleep(100 * time.Millisecond)
+					}
+				} else {
+					simrt.Sleep(d)
+				}
 			}
 		case p < s.o.devRate:
 			f, class := deviantFrame(x, s)
@@ -311,7 +392,22 @@ func (s *ship1) peerLoop() {
 var waitingVals = []int{-1, 0, 999, 1000, 29999, 30000, 60000, 4294967295}
 
 func deviantFrame(x *Ctx, s *ship1) (string, string) {
-	switch x.Choose("dev-kind", 12) {
+	if s != nil && s.o.noAmDeviants {
+		// the scenario controls the one SHIP ID the peer presents: no other access-methods frame
+		for i := 0; i < 20; i++ {
+			f, c := deviantFrame1(x, s)
+			if !strings.Contains(f, "accessMethods") {
+				return f, c
+			}
+		}
+		return fHelloReady, "valid:hello:ready"
+	}
+	return deviantFrame1(x, s)
+}
+
+func deviantFrame1(x *Ctx, s *ship1) (string, string) {
+	k := x.Choose("dev-kind", 12)
+	switch k {
 	case 0: // valid frame of some phase (possibly another one)
 		fs := []string{fInit, fHelloReady, fHelloPending, fHelloProlong, fHelloAborted, fProtAnnounce, fProtSelect, fPinNone, fAccessReq, fAccess("PEERID"), fCloseConfirm, fCloseAnnounce}
 		f := fs[x.Choose("dev-valid", len(fs))]
